@@ -437,3 +437,412 @@ Section Est4.
       apply (missing_nil_mono fl t fs); [exact Hn|]. intros k Hk. apply complete_task_mono, Hk.
   Qed.
 End Est4.
+
+(* ---- any flags: what a run that was not interrupted has done ---- *)
+Section Est5.
+  Variable fitf : Z -> list row -> Z.
+  Variable predf : Z -> Z -> Z -> Z.
+  Notation expect := (expect fitf predf).
+  Notation exec_ops := (exec_ops fitf predf).
+  Notation run_tasks := (run_tasks fitf predf).
+  Notation run := (run fitf predf).
+  Notation puts := (puts fitf predf).
+
+  (* the last write under a key decides: a written key holds what some task with that key gives *)
+  Lemma puts_fget_in : forall l fs x, In x l ->
+    exists x', In x' l /\ ikey x' = ikey x /\ fget (ikey x) (puts l fs) = Some (expect (fst x') (snd x')).
+  Proof.
+    induction l as [|y r IH]; intros fs x Hin; [destruct Hin|]. rewrite puts_cons.
+    destruct Hin as [->|Hin].
+    - destruct (puts_fget fitf predf r (fput (ikey x) (expect (fst x) (snd x)) fs) (ikey x))
+        as [E|[x' [Hx' [Hk E]]]].
+      + exists x. split; [left; reflexivity|]. split; [reflexivity|]. rewrite E. apply fget_fput_same.
+      + exists x'. split; [right; exact Hx'|]. split; [symmetry; exact Hk|exact E].
+    - destruct (IH (fput (ikey y) (expect (fst y) (snd y)) fs) x Hin) as [x' [A [B C]]].
+      exists x'. split; [right; exact A|]. split; assumption.
+  Qed.
+
+  Lemma run_tasks_written hdd fl fail : forall l c c' ev s,
+    run_tasks hdd fl fail l c = (c', ev, s) ->
+    forall k, In k (writes_of ev) ->
+      exists t it, In t l /\ k = tkey t it /\ fget k (cfiles c') = Some (expect t it).
+  Proof.
+    induction l as [|t r IH]; intros c c' ev s H k Hk; cbn [Model.run_tasks] in H.
+    - inversion H; subst. destruct Hk.
+    - destruct (exec_ops hdd fail (plan_task hdd fl (cstore c) t) c) as [[c1 e1] s1] eqn:E1.
+      destruct (exec_ops_form fitf predf _ _ _ _ _ _ _ E1)
+        as [dn [rest [Hops [Hfs [Hw [Hm [Hrun [Hstop [Hrun2 Hram]]]]]]]]].
+      assert (Hhead : In k (writes_of e1) ->
+                      exists it, k = tkey t it /\ fget k (cfiles c1) = Some (expect t it)).
+      { intro Hin. rewrite Hw in Hin. apply in_map_iff in Hin. destruct Hin as [x [<- Hx]].
+        destruct (puts_fget_in (op_items dn) (cfiles c) x Hx) as [x' [A [B C]]].
+        assert (fst x' = t) as Ht.
+        { apply (plan_items_sub hdd fl (cstore c) t). rewrite Hops, op_items_app.
+          apply in_or_app. left. exact A. }
+        exists (snd x'). rewrite <- B at 1. split; [unfold ikey; rewrite Ht; reflexivity|].
+        rewrite Hfs, C, Ht. reflexivity. }
+      destruct s1.
+      + destruct (run_tasks hdd fl fail r c1) as [[c2 e2] s2] eqn:E2. inversion H; subst; clear H.
+        rewrite writes_of_app in Hk. apply in_app_or in Hk. destruct Hk as [Hk|Hk].
+        * destruct (Hhead Hk) as [it [A B]].
+          destruct (run_tasks_safe fitf predf _ _ _ _ _ _ _ _ E2) as [_ [_ [R3 _]]].
+          destruct (R3 k) as [E|[t0 [it0 [P [_ [Q R]]]]]].
+          -- exists t, it. split; [left; reflexivity|]. split; [exact A|congruence].
+          -- exists t0, it0. split; [right; exact P|]. split; assumption.
+        * destruct (IH _ _ _ _ E2 k Hk) as [t0 [it0 [P [Q R]]]].
+          exists t0, it0. split; [right; exact P|]. split; assumption.
+      + inversion H; subst; clear H. destruct (Hhead Hk) as [it [A B]].
+        exists t, it. split; [left; reflexivity|]. split; assumption.
+      + inversion H; subst; clear H. destruct (Hhead Hk) as [it [A B]].
+        exists t, it. split; [left; reflexivity|]. split; assumption.
+  Qed.
+
+  (* an uninterrupted pass: every requested entry is there; every predict call is followed by the
+     write of its record *)
+  Lemma run_tasks_running_all hdd fl fail : forall l c c' ev,
+    run_tasks hdd fl fail l c = (c', ev, Running) ->
+    (forall t it, In t l -> requested fl it = true -> fhas (tkey t it) (cfiles c') = true) /\
+    (forall x, In x (preds_of ev) -> In (ikey x) (writes_of ev)) /\
+    (forall x, In x (preds_of ev) -> snd x <> IFit).
+  Proof.
+    induction l as [|t r IH]; intros c c' ev H; cbn [Model.run_tasks] in H.
+    - inversion H; subst. cbn. repeat split; intros; contradiction.
+    - destruct (exec_ops hdd fail (plan_task hdd fl (cstore c) t) c) as [[c1 e1] s1] eqn:E1.
+      destruct (exec_ops_form fitf predf _ _ _ _ _ _ _ E1)
+        as [dn [rest [Hops [Hfs [Hw [Hm [Hrun [Hstop [Hrun2 Hram]]]]]]]]].
+      destruct s1; try (inversion H; fail).
+      destruct (run_tasks hdd fl fail r c1) as [[c2 e2] s2] eqn:E2. inversion H; subst; clear H.
+      rewrite (Hrun eq_refl), app_nil_r in Hops. subst dn. destruct (Hrun2 eq_refl) as [_ Hp].
+      destruct (IH _ _ _ E2) as [I1 [I2 I3]].
+      destruct (run_tasks_safe fitf predf _ _ _ _ _ _ _ _ E2) as [_ [R2 _]].
+      split; [|split].
+      + intros t0 it [<-|Hin] Hr; [|apply I1; assumption]. apply R2.
+        destruct (plan_covers hdd fl (cstore c) t it Hr) as [Hh|Hin].
+        * unfold has in Hh. apply andb_true_iff in Hh. destruct Hh as [_ Hh].
+          rewrite Hfs. apply puts_mono. exact Hh.
+        * rewrite Hfs. apply (puts_has fitf predf _ _ (t, it) Hin).
+      + intros x Hx. rewrite preds_of_app in Hx. rewrite writes_of_app. apply in_or_app.
+        apply in_app_or in Hx. destruct Hx as [Hx|Hx]; [left|right; apply I2, Hx].
+        rewrite Hw. apply in_map. rewrite Hp in Hx. apply (plan_preds_items _ _ _ _ _ Hx).
+      + intros x Hx. rewrite preds_of_app in Hx. apply in_app_or in Hx.
+        destruct Hx as [Hx|Hx]; [|apply I3, Hx]. rewrite Hp in Hx. apply (plan_preds_items _ _ _ _ _ Hx).
+  Qed.
+
+  (* overwriting predictions: one fit per task, one predict per task and requested part *)
+  Lemma run_tasks_ow hdd fl fail : ow_pred fl = true -> forall l c c' ev,
+    run_tasks hdd fl fail l c = (c', ev, Running) ->
+    fits_of ev = l /\
+    preds_of ev = flat_map (fun t => (if on_train fl then [(t, ITrain)] else []) ++ [(t, ITest)]) l.
+  Proof.
+    intro How. induction l as [|t r IH]; intros c c' ev H; cbn [Model.run_tasks] in H.
+    - inversion H; subst. cbn. auto.
+    - destruct (exec_ops hdd fail (plan_task hdd fl (cstore c) t) c) as [[c1 e1] s1] eqn:E1.
+      destruct (exec_ops_form fitf predf _ _ _ _ _ _ _ E1)
+        as [dn [rest [Hops [Hfs [Hw [Hm [Hrun [Hstop [Hrun2 Hram]]]]]]]]].
+      destruct s1; try (inversion H; fail).
+      destruct (run_tasks hdd fl fail r c1) as [[c2 e2] s2] eqn:E2. inversion H; subst; clear H.
+      destruct (Hrun2 eq_refl) as [Hf Hp]. destruct (plan_ow hdd fl (cstore c) t How) as [Pf Pp].
+      destruct (IH _ _ _ E2) as [I1 I2].
+      rewrite fits_of_app, preds_of_app, Hf, Hp, Pf, Pp, I1, I2. cbn [flat_map app]. split; reflexivity.
+  Qed.
+
+  (* without a failure point a run stops only at RAMResults.save_fitted_strategy *)
+  Lemma run_tasks_no_stop hdd fl : (hdd = false -> save_fit fl = false) -> forall l c,
+    snd (run_tasks hdd fl None l c) = Running.
+  Proof.
+    intro Hleg. induction l as [|t r IH]; intro c; cbn [Model.run_tasks]; [reflexivity|].
+    pose proof (exec_ops_no_stop fitf predf hdd (plan_task hdd fl (cstore c) t) c) as Hs.
+    destruct (exec_ops hdd None (plan_task hdd fl (cstore c) t) c) as [[c1 e1] s1]. cbn in Hs.
+    rewrite Hs.
+    - specialize (IH c1). destruct (run_tasks hdd fl None r c1) as [[c2 e2] s2]. exact IH.
+    - intros Hh t' Hin. exact (plan_no_save hdd fl (cstore c) t t' (Hleg Hh) Hin).
+  Qed.
+End Est5.
+
+(* ============================================================================================ *)
+(* Part 3c: the statements about `run` (Orchestrator.fit_predict) *)
+
+(* task keys are pairwise different: strategy names are unique (the Orchestrator validates it),
+   dataset names are unique, folds are numbered *)
+Definition distinct (l : list task) : Prop :=
+  forall t t', In t l -> In t' l -> tkey t ITest = tkey t' ITest -> t = t'.
+(* every stored entry under a task key is what fit-then-predict of that task gives *)
+Definition honest (fitf : Z -> list row -> Z) (predf : Z -> Z -> Z -> Z) (l : list task) (fs : files) :=
+  forall t it c, In t l -> fget (tkey t it) fs = Some c -> c = expect fitf predf t it.
+
+Lemma tkey_eq t it t' it' : tkey t it = tkey t' it' -> it = it' /\ tkey t ITest = tkey t' ITest.
+Proof. unfold tkey. intro H. inversion H. split; [reflexivity|congruence]. Qed.
+
+Lemma sfiles_save hdd st : sfiles (save hdd st) = sfiles st.
+Proof. unfold save. destruct hdd; [|reflexivity]. destruct (master st) as [[ms md]|]; reflexivity. Qed.
+Lemma sfiles_fresh st : sfiles (fresh true st) = sfiles st.
+Proof. reflexivity. Qed.
+Lemma events_nil ev : writes_of ev = [] -> fits_of ev = [] -> preds_of ev = [] -> ev = [].
+Proof. destruct ev as [|e r]; [reflexivity|]. destruct e; cbn; discriminate. Qed.
+
+Section Est6.
+  Variable fitf : Z -> list row -> Z.
+  Variable predf : Z -> Z -> Z -> Z.
+  Notation expect := (expect fitf predf).
+  Notation run_tasks := (run_tasks fitf predf).
+  Notation run := (run fitf predf).
+  Notation puts := (puts fitf predf).
+  Notation complete_task := (complete_task fitf predf).
+  Notation complete_all := (complete_all fitf predf).
+  Notation all_missing := (all_missing fitf predf).
+  Notation need_fit := (need_fit fitf predf).
+  Notation honest := (honest fitf predf).
+
+  Lemma run_inv hdd fl fail l st st' ev out :
+    run hdd fl fail l st = (st', ev, out) ->
+    (ow_fit fl && negb (save_fit fl) = true /\ st' = st /\ ev = [] /\ out = Rejected) \/
+    (ow_fit fl && negb (save_fit fl) = false /\
+     exists c s, run_tasks hdd fl fail l (st, 0, 0) = (c, ev, s) /\
+       ((s = Running /\ out = Done /\ st' = save hdd (cstore c)) \/
+        (s = Crashed /\ out = Crash /\ st' = cstore c) \/
+        (s = NotImpl /\ out = NotImplemented /\ st' = cstore c))).
+  Proof.
+    unfold Model.run. destruct (ow_fit fl && negb (save_fit fl)).
+    - intro H. inversion H; subst. left. auto.
+    - destruct (run_tasks hdd fl fail l (st, 0, 0)) as [[c ev0] s] eqn:E. intro H. right.
+      split; [reflexivity|]. exists c, s. destruct s; inversion H; subst; split; auto 7.
+  Qed.
+  Lemma legal_not_rejected hdd fl : legal hdd fl -> ow_fit fl && negb (save_fit fl) = false.
+  Proof. intros [H _]. destruct (ow_fit fl); [rewrite H by reflexivity|]; reflexivity. Qed.
+  Lemma noow_not_rejected fl : noow fl -> ow_fit fl && negb (save_fit fl) = false.
+  Proof. intros [_ H]. rewrite H. reflexivity. Qed.
+
+  (* T1: the illegal flag combination is refused before anything happens *)
+  Lemma run_rejects hdd fl fail l st :
+    ow_fit fl = true -> save_fit fl = false -> run hdd fl fail l st = (st, [], Rejected).
+  Proof. intros H1 H2. unfold Model.run. rewrite H1, H2. reflexivity. Qed.
+
+  (* T2: exactly one record per task and requested item, and nothing but those *)
+  Lemma run_exactly_once hdd fl l st st' ev out :
+    legal hdd fl -> wf (sfiles st) ->
+    run hdd fl None l st = (st', ev, out) ->
+    out = Done /\ wf (sfiles st') /\
+    (forall t it, In t l -> requested fl it = true -> nkeys (tkey t it) (sfiles st') = 1%nat) /\
+    (forall k, fhas k (sfiles st') = true ->
+       fhas k (sfiles st) = true \/ exists t it, In t l /\ requested fl it = true /\ k = tkey t it).
+  Proof.
+    intros Hleg Hwf H. apply run_inv in H. rewrite (legal_not_rejected _ _ Hleg) in H.
+    destruct H as [[H _]|[_ [c [s [E Hs]]]]]; [discriminate|].
+    pose proof (run_tasks_no_stop fitf predf hdd fl (proj2 Hleg) l (st, 0, 0)) as Hrun.
+    rewrite E in Hrun. cbn in Hrun. subst s.
+    destruct Hs as [[_ [-> ->]]|[[Hs _]|[Hs _]]]; try discriminate.
+    destruct (run_tasks_safe fitf predf _ _ _ _ _ _ _ _ E) as [_ [_ [R3 [_ [_ [_ R7]]]]]].
+    destruct (run_tasks_running_all fitf predf _ _ _ _ _ _ _ E) as [A _].
+    rewrite sfiles_save. unfold cfiles, cstore in *. cbn [fst] in *.
+    split; [reflexivity|]. split; [apply R7, Hwf|]. split.
+    - intros t it Hin Hr. apply wf_nkeys_one; [apply R7, Hwf|apply A; assumption].
+    - intros k Hk. destruct (R3 k) as [Eq|[t [it [P [Q [R _]]]]]].
+      + left. unfold fhas in *. rewrite <- Eq. exact Hk.
+      + right. exists t, it. auto.
+  Qed.
+
+  (* T3: what is stored is what fit-then-predict of a fresh clone gives (any flags, any failure
+     point: also the partial store of a crashed run is honest) *)
+  Lemma run_honest hdd fl fail l st st' ev out :
+    distinct l -> honest l (sfiles st) ->
+    run hdd fl fail l st = (st', ev, out) -> honest l (sfiles st').
+  Proof.
+    intros Hd Hh H. apply run_inv in H.
+    destruct H as [[_ [-> _]]|[_ [c [s [E Hs]]]]]; [exact Hh|].
+    assert (honest l (cfiles c)) as Hc.
+    { destruct (run_tasks_safe fitf predf _ _ _ _ _ _ _ _ E) as [_ [_ [R3 _]]].
+      unfold cfiles, cstore in *. cbn [fst] in *.
+      intros t it v Hin Hg. destruct (R3 (tkey t it)) as [Eq|[t' [it' [P [_ [Q R]]]]]].
+      - apply (Hh t it v Hin). rewrite <- Eq. exact Hg.
+      - destruct (tkey_eq _ _ _ _ Q) as [-> Q']. rewrite (Hd t t' Hin P Q') in *. congruence. }
+    unfold cfiles in Hc.
+    destruct Hs as [[_ [_ ->]]|[[_ [_ ->]]|[_ [_ ->]]]]; rewrite ?sfiles_save; exact Hc.
+  Qed.
+  Lemma honest_empty l : honest l [].
+  Proof. intros t it c _ H. discriminate. Qed.
+  (* ... so after an uninterrupted run from an honest store every requested record is exactly that *)
+  Lemma run_records hdd fl l st st' ev out :
+    legal hdd fl -> distinct l -> honest l (sfiles st) ->
+    run hdd fl None l st = (st', ev, out) ->
+    forall t it, In t l -> requested fl it = true -> fget (tkey t it) (sfiles st') = Some (expect t it).
+  Proof.
+    intros Hleg Hd Hh H t it Hin Hr.
+    pose proof (run_honest _ _ _ _ _ _ _ _ Hd Hh H) as Hh'.
+    apply run_inv in H. rewrite (legal_not_rejected _ _ Hleg) in H.
+    destruct H as [[H _]|[_ [c [s [E Hs]]]]]; [discriminate|].
+    pose proof (run_tasks_no_stop fitf predf hdd fl (proj2 Hleg) l (st, 0, 0)) as Hrun.
+    rewrite E in Hrun. cbn in Hrun. subst s.
+    destruct Hs as [[_ [_ ->]]|[[Hs _]|[Hs _]]]; try discriminate.
+    destruct (run_tasks_running_all fitf predf _ _ _ _ _ _ _ E) as [A _].
+    specialize (A t it Hin Hr). rewrite sfiles_save in *. apply fhas_true in A. destruct A as [v Hv].
+    unfold cfiles in Hv. rewrite Hv. f_equal. apply (Hh' t it v Hin Hv).
+  Qed.
+
+  (* entries that are there are never touched by a pass without overwriting *)
+  Lemma complete_task_keeps fl t fs k c : fget k fs = Some c -> fget k (complete_task fl t fs) = Some c.
+  Proof.
+    intro H. unfold Proofs.complete_task. rewrite puts_frame; [exact H|]. intro Hin.
+    apply in_map_iff in Hin. destruct Hin as [x [<- Hx]]. apply missing_in in Hx.
+    destruct Hx as [_ [_ Hf]]. apply fhas_false in Hf. congruence.
+  Qed.
+  Lemma complete_all_keeps fl : forall l fs k c, fget k fs = Some c -> fget k (complete_all fl l fs) = Some c.
+  Proof.
+    induction l as [|t r IH]; intros fs k c H; cbn [Proofs.complete_all]; [exact H|].
+    apply IH, complete_task_keeps, H.
+  Qed.
+
+  (* T8: a crashed run leaves what was there, writes only missing requested entries, never the
+     master file *)
+  Lemma run_crash_keeps fl fail l st st1 ev1 :
+    noow fl -> run true fl fail l st = (st1, ev1, Crash) ->
+    master st1 = master st /\
+    (forall k c, fget k (sfiles st) = Some c -> fget k (sfiles st1) = Some c) /\
+    (forall k, In k (writes_of ev1) ->
+       fhas k (sfiles st) = false /\ exists t it, In t l /\ requested fl it = true /\ k = tkey t it).
+  Proof.
+    intros Hno H. apply run_inv in H. rewrite (noow_not_rejected _ Hno) in H.
+    destruct H as [[H _]|[_ [c [s [E Hs]]]]]; [discriminate|].
+    destruct Hs as [[_ [Hs _]]|[[-> [_ ->]]|[_ [Hs _]]]]; try discriminate.
+    destruct (run_tasks_safe fitf predf _ _ _ _ _ _ _ _ E) as [R1 [_ [_ [R4 _]]]].
+    destruct (run_tasks_noow_crash fitf predf fl fail Hno _ _ _ _ _ E)
+      as [pre [t [post [m1 [m2 [Hl [Hm [Hfs Hw]]]]]]]]; [discriminate|].
+    unfold cfiles, cstore in *. cbn [fst] in *. split; [exact R1|]. split.
+    - intros k v Hk. rewrite Hfs.
+      rewrite puts_frame; [apply complete_all_keeps, Hk|]. intro Hin.
+      apply in_map_iff in Hin. destruct Hin as [x [<- Hx]].
+      assert (In x (missing fl t (complete_all fl pre (sfiles st)))) as Hx2
+        by (rewrite Hm; apply in_or_app; left; exact Hx).
+      apply missing_in in Hx2. destruct Hx2 as [_ [_ Hf]]. apply fhas_false in Hf.
+      rewrite (complete_all_keeps fl pre _ _ _ Hk) in Hf. discriminate.
+    - intros k Hk. split; [|apply R4, Hk]. rewrite Hw, map_app in Hk. apply in_app_or in Hk.
+      destruct Hk as [Hk|Hk]; apply in_map_iff in Hk; destruct Hk as [x [<- Hx]].
+      + apply (all_missing_sound fitf predf fl _ _ _ Hx).
+      + assert (In x (missing fl t (complete_all fl pre (sfiles st)))) as Hx2
+          by (rewrite Hm; apply in_or_app; left; exact Hx).
+        apply missing_in in Hx2. destruct Hx2 as [_ [_ Hf]].
+        destruct (fhas (ikey x) (sfiles st)) eqn:Ef; [|reflexivity].
+        rewrite (complete_all_mono fitf predf fl pre _ _ Ef) in Hf. discriminate.
+  Qed.
+
+  (* an uninterrupted run without overwriting, on disk *)
+  Lemma run_noow_done fl l st st' ev out :
+    noow fl -> run true fl None l st = (st', ev, out) ->
+    out = Done /\ sfiles st' = complete_all fl l (sfiles st) /\
+    writes_of ev = map ikey (all_missing fl l (sfiles st)) /\
+    fits_of ev = need_fit fl l (sfiles st) /\
+    preds_of ev = filter not_fit (all_missing fl l (sfiles st)).
+  Proof.
+    intros Hno H. apply run_inv in H. rewrite (noow_not_rejected _ Hno) in H.
+    destruct H as [[H _]|[_ [c [s [E Hs]]]]]; [discriminate|].
+    pose proof (run_tasks_no_stop fitf predf true fl (fun H => ltac:(discriminate)) l (st, 0, 0)) as Hrun.
+    rewrite E in Hrun. cbn in Hrun. subst s.
+    destruct Hs as [[_ [-> ->]]|[[Hs _]|[Hs _]]]; try discriminate.
+    destruct (run_tasks_noow_running fitf predf fl None Hno _ _ _ _ E) as [A [B [C D]]].
+    unfold cfiles, cstore in *. cbn [fst] in *.
+    rewrite sfiles_save. split; [reflexivity|]. split; [exact A|]. split; [exact B|]. split; assumption.
+  Qed.
+
+  (* T5: crash at any point, run again without overwriting (same or fresh results object):
+     the final store is that of the uninterrupted run, completed entries are neither recomputed nor
+     modified, exactly the missing ones are produced (once), fits happen only for incomplete tasks *)
+  Lemma run_resume fl fail l st st1 ev1 (b : bool) st2 ev2 out2 :
+    noow fl ->
+    run true fl fail l st = (st1, ev1, Crash) ->
+    run true fl None l (if b then fresh true st1 else st1) = (st2, ev2, out2) ->
+    out2 = Done /\
+    sfiles st2 = sfiles (fst (fst (run true fl None l st))) /\
+    (forall k c, fget k (sfiles st1) = Some c ->
+       fget k (sfiles st2) = Some c /\ ~ In k (writes_of ev2) /\
+       (forall x, In x (preds_of ev2) -> ikey x <> k)) /\
+    (forall t it, In t l -> requested fl it = true -> fhas (tkey t it) (sfiles st1) = false ->
+       In (tkey t it) (writes_of ev2)) /\
+    (forall k, In k (writes_of ev2) ->
+       fhas k (sfiles st1) = false /\ exists t it, In t l /\ requested fl it = true /\ k = tkey t it) /\
+    NoDup (writes_of ev2) /\
+    (forall t, In t (fits_of ev2) ->
+       In t l /\ exists it, requested fl it = true /\ fhas (tkey t it) (sfiles st1) = false).
+  Proof.
+    intros Hno H1 H2.
+    assert (sfiles (if b then fresh true st1 else st1) = sfiles st1) as Hfs1 by (destruct b; reflexivity).
+    destruct (run_noow_done _ _ _ _ _ _ Hno H2) as [-> [A [B [C D]]]]. rewrite Hfs1 in *.
+    split; [reflexivity|]. split.
+    - destruct (run true fl None l st) as [[st' ev'] out'] eqn:E0.
+      destruct (run_noow_done _ _ _ _ _ _ Hno E0) as [_ [A0 _]]. cbn [fst]. rewrite A, A0.
+      apply run_inv in H1. rewrite (noow_not_rejected _ Hno) in H1.
+      destruct H1 as [[H _]|[_ [c [s [E Hs]]]]]; [discriminate|].
+      destruct Hs as [[_ [Hs _]]|[[-> [_ ->]]|[_ [Hs _]]]]; try discriminate.
+      destruct (run_tasks_noow_crash fitf predf fl fail Hno _ _ _ _ _ E)
+        as [pre [t [post [m1 [m2 [Hl [Hm [Hfs Hw]]]]]]]]; [discriminate|].
+      unfold cfiles, cstore in *. cbn [fst] in *. rewrite Hfs, Hl.
+      apply resume_algebra with (m2 := m2). exact Hm.
+    - split.
+      { intros k c Hk. split; [rewrite A; apply complete_all_keeps, Hk|]. split.
+        - rewrite B. intro Hin. apply in_map_iff in Hin. destruct Hin as [x [<- Hx]].
+          destruct (all_missing_sound fitf predf fl _ _ _ Hx) as [Hf _]. apply fhas_false in Hf. congruence.
+        - intros x Hx Heq. rewrite D in Hx. apply filter_In in Hx. destruct Hx as [Hx _].
+          destruct (all_missing_sound fitf predf fl _ _ _ Hx) as [Hf _]. apply fhas_false in Hf.
+          rewrite Heq in Hf. congruence. }
+      split. { intros t it Hin Hr Hf. rewrite B. apply all_missing_complete; assumption. }
+      split.
+      { intros k Hk. rewrite B in Hk. apply in_map_iff in Hk. destruct Hk as [x [<- Hx]].
+        destruct (all_missing_sound fitf predf fl _ _ _ Hx) as [Hf [Hin Hr]]. split; [exact Hf|].
+        exists (fst x), (snd x). auto. }
+      split; [rewrite B; apply all_missing_nodup|].
+      intros t Ht. rewrite C in Ht. destruct (need_fit_sound fitf predf fl _ _ _ Ht) as [Hin Hne].
+      split; [exact Hin|]. destruct (missing fl t (sfiles st1)) as [|x r] eqn:Em; [congruence|].
+      assert (In x (missing fl t (sfiles st1))) as Hx by (rewrite Em; left; reflexivity).
+      apply missing_in in Hx. destruct Hx as [Hx1 [Hx2 Hx3]]. exists (snd x).
+      split; [exact Hx2|]. unfold ikey in Hx3. rewrite Hx1 in Hx3. exact Hx3.
+  Qed.
+
+  (* T6: a further identical run has nothing to do *)
+  Lemma run_third fl l st st1 ev1 (b : bool) st2 ev2 out2 :
+    noow fl ->
+    run true fl None l st = (st1, ev1, Done) ->
+    run true fl None l (if b then fresh true st1 else st1) = (st2, ev2, out2) ->
+    out2 = Done /\ ev2 = [] /\ sfiles st2 = sfiles st1.
+  Proof.
+    intros Hno H1 H2.
+    assert (sfiles (if b then fresh true st1 else st1) = sfiles st1) as Hfs1 by (destruct b; reflexivity).
+    destruct (run_noow_done _ _ _ _ _ _ Hno H1) as [_ [A1 _]].
+    destruct (run_noow_done _ _ _ _ _ _ Hno H2) as [-> [A [B [C D]]]]. rewrite Hfs1 in *.
+    destruct (complete_all_id fitf predf fl l (sfiles st1)) as [I1 [I2 I3]].
+    { intros t Hin. rewrite A1. apply complete_all_complete, Hin. }
+    split; [reflexivity|]. split; [|congruence]. apply events_nil.
+    - rewrite B, I2. reflexivity.
+    - rewrite C, I3. reflexivity.
+    - rewrite D, I2. reflexivity.
+  Qed.
+
+  (* T7: with overwrite_predictions every record is recomputed: one fit per task, one predict and
+     one write per task and requested part, whatever was in the store *)
+  Lemma run_overwrite hdd fl l st st' ev out :
+    ow_pred fl = true -> legal hdd fl ->
+    run hdd fl None l st = (st', ev, out) ->
+    out = Done /\ fits_of ev = l /\
+    preds_of ev = flat_map (fun t => (if on_train fl then [(t, ITrain)] else []) ++ [(t, ITest)]) l /\
+    (forall t it, In t l -> it <> IFit -> requested fl it = true ->
+       In (t, it) (preds_of ev) /\ In (tkey t it) (writes_of ev)) /\
+    (distinct l -> forall t it, In t l -> it <> IFit -> requested fl it = true ->
+       fget (tkey t it) (sfiles st') = Some (expect t it)).
+  Proof.
+    intros How Hleg H. apply run_inv in H. rewrite (legal_not_rejected _ _ Hleg) in H.
+    destruct H as [[H _]|[_ [c [s [E Hs]]]]]; [discriminate|].
+    pose proof (run_tasks_no_stop fitf predf hdd fl (proj2 Hleg) l (st, 0, 0)) as Hrun.
+    rewrite E in Hrun. cbn in Hrun. subst s.
+    destruct Hs as [[_ [-> ->]]|[[Hs _]|[Hs _]]]; try discriminate.
+    destruct (run_tasks_ow fitf predf hdd fl None How _ _ _ _ E) as [Hf Hp].
+    destruct (run_tasks_running_all fitf predf _ _ _ _ _ _ _ E) as [_ [Hpw _]].
+    assert (Hin_pred : forall t it, In t l -> it <> IFit -> requested fl it = true -> In (t, it) (preds_of ev)).
+    { intros t it Hin Hne Hr. rewrite Hp. apply in_flat_map. exists t. split; [exact Hin|].
+      destruct it; [|apply in_or_app; right; left; reflexivity|congruence].
+      cbn in Hr. rewrite Hr. left. reflexivity. }
+    split; [reflexivity|]. split; [exact Hf|]. split; [exact Hp|]. split.
+    - intros t it Hin Hne Hr. split; [apply Hin_pred; assumption|].
+      apply (Hpw (t, it)). apply Hin_pred; assumption.
+    - intros Hd t it Hin Hne Hr. rewrite sfiles_save.
+      assert (In (tkey t it) (writes_of ev)) as Hw by (apply (Hpw (t, it)); apply Hin_pred; assumption).
+      destruct (run_tasks_written fitf predf _ _ _ _ _ _ _ _ E _ Hw) as [t' [it' [P [Q R]]]].
+      destruct (tkey_eq _ _ _ _ Q) as [-> Q']. rewrite (Hd t t' Hin P Q') in *. exact R.
+  Qed.
+End Est6.
